@@ -208,3 +208,22 @@ package core
 //@ ensures [accepted-means-every-migration-is-valid] result == nil ==> (forall k int :: 0 <= k && k < len(cfg.MigrationConfigs.Config) ==> cfg.MigrationConfigs.Config[k].BatchSize >= 1)
 //@ ensures [accepted-means-destination-trees-are-distinct] result == nil ==> (forall m int :: 0 <= m && m < len(cfg.MigrationConfigs.Config) ==> (forall k int :: 0 <= k && k < m ==> cfg.MigrationConfigs.Config[k].LogId != cfg.MigrationConfigs.Config[m].LogId))
 //@ ensures [a-refused-migration-refuses-the-whole-config] vm.called && vm.res != nil ==> result != nil
+
+// C20 "restarts ... never cause gaps": the passes of one run. The first pass starts from index 0 (the
+// destination root decides where fetching really starts, see fetchTail); in continuous mode every
+// further pass resumes exactly where the previous one ended; a failed pass ends the run with its
+// error; a one-shot run makes exactly one pass.
+//@ func (*Controller).Run
+//@ props C20
+//@ arith int
+//@ site fetchTail#1 as f0
+//@ site fetchTail#2 as fk
+//@ stable-field c.ctClient c.plClient c.ctClient.JSONClient c.opts c.plClient.cli c.plClient.idFunc
+//@ requires c != nil && c.plClient != nil && c.plClient.cli != nil && c.plClient.idFunc != nil && c.ctClient != nil && c.ctClient.httpClient != nil && ctx != nil
+//@ requires [options-from-a-validated-config] c.opts.FetcherOptions.BatchSize >= 1 && c.opts.FetcherOptions.EndIndex >= 0
+//@ requires metrics.controllerStarts != nil
+//@ at f0 assert [the-first-pass-starts-from-the-beginning] f0.begin == 0 && f0.c == c
+//@ at fk assert [every-further-pass-resumes-where-the-previous-one-ended] fk.begin == pos && fk.c == c
+//@ loop 1 step-assert [the-position-carried-over-is-the-end-of-this-pass] next(pos) == fk.res0
+//@ ensures [a-failed-first-pass-ends-the-run-with-its-error] f0.res1 != nil ==> result == f0.res1 && !fk.called
+//@ ensures [a-one-shot-run-makes-exactly-one-pass] f0.res1 == nil && !c.opts.FetcherOptions.Continuous ==> result == nil && !fk.called
